@@ -1232,6 +1232,152 @@ let run_notify (path : string) =
    with End_of_file -> ());
   close_in ic
 
+
+(* ---------- C08: the protocol model of Conc.v run on the placements of the pause-point harness.
+   cpause <rollover> <setup> <point> <A> <B> [<C>] -- ...
+   A is stepped to the pause point, B and C run until they finish or block, then every interleaving of the
+   remaining steps is explored; printed: the set of possible outcomes (results of A, B, C, live messages, next). *)
+type cq = QGet of int | QCons1 of int
+let rec int_of_nat = function O -> 0 | S n -> 1 + int_of_nat n
+let cbytes (s : string) : bytes = List.init (String.length s) (fun i -> n_of_int (Char.code s.[i]))
+let cstring (b : bytes) : string = String.concat "" (List.map (fun x -> String.make 1 (Char.chr (int_of_n x))) b)
+let cmsg_id (m : msg) = Printf.sprintf "%d:%s" (int_of_z m.moff) (cstring m.mval)
+let cqeval (q : cq) (live : msg list) (next : z) : string =
+  let nx = int_of_z next in
+  match q with
+  | QGet off ->
+    (match List.filter (fun m -> int_of_z m.moff = off) live with
+     | m :: _ -> "m:" ^ cmsg_id m
+     | [] -> if off >= 0 && off < nx then "err:NotFound" else if off >= nx then "err:InvalidOffset" else "err:?")
+  | QCons1 off ->
+    if off > nx then "err:InvalidOffset"
+    else if off = -1 then Printf.sprintf "n:%d:" nx
+    else (match List.filter (fun m -> off < 0 || int_of_z m.moff >= off) live with
+        | m :: _ -> Printf.sprintf "n:%d:%s" (int_of_z m.moff + 1) (cmsg_id m)
+        | [] -> Printf.sprintf "n:%d:" nx)
+
+let cparse_op (s : string) : (cq, string) pc0 option =
+  match String.split_on_char ':' s with
+  | ["pub"; vs] ->
+    Some (P0 (List.map (fun v -> { moff = Z0; mtime = z_of_int 100; mkey = cbytes ("k" ^ String.sub v 0 1); mval = cbytes v })
+                (String.split_on_char ',' vs)))
+  | ["get"; o] -> Some (R0 (QGet (int_of_string o)))
+  | ["cons"; o; "1"] -> Some (R0 (QCons1 (int_of_string o)))
+  | ["del"; os] -> Some (D0 (List.map (fun o -> z_of_int (int_of_string o)) (String.split_on_char ',' os)))
+  | _ -> None
+
+let cseg_size (sg : cseg) : int =
+  8 + List.fold_left (fun a m -> a + 36 + List.length m.mkey + List.length m.mval) 0 sg.crecs
+let cseg_base (st : (cq, string) cstate) (sg : cseg) : int =
+  match sg.crecs with m :: _ -> int_of_z m.moff | [] -> int_of_z st.nxt0
+
+(* the action thread i takes next (its choices resolved as the implementation resolves them) *)
+let cnext_act (roll : int) (st : (cq, string) cstate) (i : int) : act option =
+  let ni = nat_of_int i in
+  match List.nth_opt st.thr i with
+  | None -> None
+  | Some p ->
+    (match p with
+     | Idle | PDone _ | RDone _ | DDone _ -> None
+     | P1 _ ->
+       (match List.rev st.segs0 with
+        | hd :: _ when hd.crecs <> [] && cseg_size hd > roll -> Some (Roll ni)
+        | _ -> Some (Step0 ni))
+     | R1 _ -> Some (HeadFirst ni)
+     | D1 offs ->
+       let lo = List.fold_left (fun a o -> min a (int_of_z o)) max_int offs in
+       (* segment.Get on the lowest offset: the last segment whose base is not above it; before the first: NotFound *)
+       let idx = ref (-1) in
+       List.iteri (fun k sg -> if cseg_base st sg <= lo then idx := k) st.segs0;
+       Some (Find (ni, nat_of_int (if !idx < 0 then 1000 else !idx)))
+     | _ -> Some (Step0 ni))
+
+let cclear (st : (cq, string) cstate) = { st with trace = [] }
+let cdo (st : (cq, string) cstate) (a : act) = match cstep cqeval st a with Some s' -> Some (cclear s') | None -> None
+
+let rec crun_thread roll st i fuel =
+  if fuel = 0 then st else
+    match cnext_act roll st i with
+    | None -> st
+    | Some a -> (match cdo st a with Some s' -> crun_thread roll s' i (fuel - 1) | None -> st)
+
+let cpc_at (point : string) (p : (cq, string) pc0) (rolled : bool) : bool =
+  match point, p with
+  | "publish.written", P2 _ -> true
+  | "publish.rolled", P2 _ -> rolled
+  | "delete.found", D2 _ -> true
+  | "delete.synced", D3 _ -> true
+  | "delete.rewritten", (D4 _ | D5 _) -> true
+  | _ -> false
+
+let coutcome (st : (cq, string) cstate) (ids : int list) : string =
+  let res i = (match List.nth_opt st.thr i with
+      | Some (PDone r) -> Printf.sprintf "n:%d" (int_of_z r)
+      | Some (RDone r) -> r
+      | Some (DDone ms) -> "m:" ^ String.concat "," (List.sort compare (List.map cmsg_id ms))
+      | _ -> "?") in
+  String.concat " " (List.mapi (fun k i -> Printf.sprintf "c%d=%s" (k + 1) (res i)) ids)
+  ^ Printf.sprintf " live=%s next=%d" (String.concat "," (List.map cmsg_id (cabs st.segs0))) (int_of_z st.nxt0)
+
+let run_cconc (path : string) =
+  let ic = open_in path in
+  (try
+     while true do
+       let line = String.trim (input_line ic) in
+       if line <> "" && line.[0] <> '#' then begin
+         print_endline line;
+         let f = List.filter (fun s -> s <> "") (String.split_on_char ' ' line) in
+         (match f with
+          | "cpause" :: rollover :: setup :: point :: rest ->
+            let roll = int_of_string (String.concat "" (List.filter (fun s -> s <> "") (String.split_on_char 'k' rollover))) in
+            let inside = (let rec upto l = (match l with [] -> [] | "--" :: _ -> [] | x :: r -> x :: upto r) in upto rest) in
+            let setup_ops = if setup = "-" then [] else String.split_on_char ';' setup in
+            let all = setup_ops @ inside in
+            (match List.fold_right (fun s acc -> match acc, cparse_op s with Some l, Some p -> Some (p :: l) | _ -> None) all (Some []) with
+             | None -> print_endline "= skip"
+             | Some pcs ->
+               let st0 = cinit pcs in
+               let ns = List.length setup_ops in
+               let st1 = List.fold_left (fun st i -> crun_thread roll st i 100) st0 (List.init ns (fun i -> i)) in
+               let ids = List.init (List.length inside) (fun k -> ns + k) in
+               let a = ns in
+               (* A up to the pause point *)
+               let rec hold st rolled fuel =
+                 if fuel = 0 then st else
+                   match List.nth_opt st.thr a with
+                   | Some p when cpc_at point p rolled -> st
+                   | _ ->
+                     (match cnext_act roll st a with
+                      | None -> st
+                      | Some act ->
+                        (match cdo st act with
+                         | Some s' -> hold s' (rolled || (match act with Roll _ -> true | _ -> false)) (fuel - 1)
+                         | None -> st)) in
+               let st2 = hold st1 false 100 in
+               (* from here on every interleaving of A, B and C (B and C are started while A is held, but a slow call may
+                  still be running when A is released) *)
+               let st3 = st2 in
+               let outs = Hashtbl.create 16 in
+               let seen = Hashtbl.create 256 in
+               let rec explore st =
+                 let key = Marshal.to_string st [] in
+                 if not (Hashtbl.mem seen key) then begin
+                   Hashtbl.add seen key ();
+                   let moves = List.filter_map (fun i -> match cnext_act roll st i with
+                       | Some act -> (match cdo st act with Some s' -> Some s' | None -> None)
+                       | None -> None) ids in
+                   if moves = [] then Hashtbl.replace outs (coutcome st ids) ()
+                   else List.iter explore moves
+                 end in
+               explore st3;
+               let l = List.sort compare (Hashtbl.fold (fun k () acc -> k :: acc) outs []) in
+               print_endline ("= " ^ String.concat " || " l))
+          | _ -> print_endline "= skip")
+       end
+     done
+   with End_of_file -> ());
+  close_in ic
+
 let () =
   match Array.to_list Sys.argv with
   | _ :: "hist" :: path :: _ -> run_hist path
@@ -1240,4 +1386,5 @@ let () =
   | _ :: "ccheck" :: path :: _ -> run_ccheck path
   | _ :: "flock" :: path :: _ -> run_flock path
   | _ :: "notify" :: path :: _ -> run_notify path
+  | _ :: "cconc" :: path :: _ -> run_cconc path
   | _ -> prerr_endline "usage: kvmodel hist <file>"; exit 2
